@@ -115,7 +115,17 @@ func VerifyBlockHash(
 	network *networks.Network,
 	stateDiff *StateDiff,
 	backend TempTrieBackend,
-) (*BlockCommitments, error) {
+) (commitments *BlockCommitments, err error) {
+	// A block in which a field that its (transaction or protocol) version requires is absent — e.g.
+	// a v3 transaction relabelled v1 without max_fee, a 0.13.2 block relabelled 0.13.4+ without an
+	// L2 gas price — makes the hash functions dereference a nil pointer. Such a block comes from
+	// the network and must be rejected, not take the node down.
+	defer func() {
+		if r := recover(); r != nil {
+			commitments, err = nil, fmt.Errorf("malformed block %d: %v", b.Number, r)
+		}
+	}()
+
 	if len(b.Transactions) != len(b.Receipts) {
 		return nil, fmt.Errorf("len of transactions: %v do not match len of receipts: %v",
 			len(b.Transactions), len(b.Receipts))
